@@ -34,11 +34,11 @@ ASSUMPTIONS = [
 ]
 BUDGET = {"quick": {"worker_timeout": 900, "case_timeout": 120}, "thorough": {"worker_timeout": 3300, "case_timeout": 300}}
 REQUIRED_COUNTERS = {
-    "quick": {"first_order_compared": 800, "second_order_compared": 600, "backward_solves": 1500, "backward_default_krylov": 60,
+    "quick": {"cot_nl": 150, "cot_tiny": 80, "nested_backward_solves": 200, "first_order_compared": 800, "second_order_compared": 600, "backward_solves": 1500, "backward_default_krylov": 60,
               "backward_default_dense": 60, "y0_nograd_checked": 150, "nontensor_param_cases": 100, "complex_cases": 100,
               "pair_compared": 60, "placement_module": 60, "placement_editable_derived": 60, "placement_explicit_nt": 60,
               "fwd_gd": 20, "fwd_adam": 20, "fwd_anderson_acc": 30, "fwd_newton": 60, "backward_gmres": 10, "backward_cg": 60},
-    "thorough": {"first_order_compared": 5000, "second_order_compared": 4000, "backward_solves": 10000, "backward_default_krylov": 600,
+    "thorough": {"cot_nl": 1500, "cot_tiny": 800, "nested_backward_solves": 2000, "first_order_compared": 5000, "second_order_compared": 4000, "backward_solves": 10000, "backward_default_krylov": 600,
                  "backward_default_dense": 600, "y0_nograd_checked": 1500, "nontensor_param_cases": 1000, "complex_cases": 1000,
                  "pair_compared": 600, "placement_module": 600, "placement_editable_derived": 600, "placement_explicit_nt": 600,
                  "fwd_gd": 200, "fwd_adam": 200, "fwd_anderson_acc": 300, "fwd_newton": 600, "backward_gmres": 100, "backward_cg": 600},
@@ -77,6 +77,9 @@ def cases(seed, tier):
         d["y0"] = rng.choice(["zero", "rand"])
         d["y0grad"] = rng.random() < 0.4
         d["order"] = 2
+        # the loss: random constant cotangent / the same scaled by 1e-10 (backward tolerances tightened accordingly; the gradient is
+        # linear in the cotangent) / a loss that is nonlinear in the solution (the cotangent depends on the parameters)
+        d["cot"] = rng.choice(["rand", "rand", "rand", "nl", "nl", "tiny"])
         out.append(d)
     # pairs: the same problem solved by two (method, y0) combinations must give the same gradient
     NP = 150 if tier == "quick" else 1200
@@ -140,22 +143,30 @@ class SolveSpy:
 
     def __init__(self):
         self.calls = []
+        self.nested = []        # solves started by solve's own backward (second order): (method, options)
         self.mod = sys.modules["xitorch.optimize.rootfinder"]
-        self.orig = None
+        self.mod2 = sys.modules["xitorch.linalg.solve"]
+        self.orig = self.orig2 = None
 
     def __enter__(self):
-        self.orig = self.mod.solve
-        orig, calls = self.orig, self.calls
+        self.orig, self.orig2 = self.mod.solve, self.mod2.solve
+        orig, calls, orig2, nested = self.orig, self.calls, self.orig2, self.nested
 
         def solve(*a, **kw):
             A = kw.get("A", a[0] if a else None)
             calls.append((kw.get("method"), int(A.shape[-1]) if A is not None else -1))
             return orig(*a, **kw)
+
+        def solve2(*a, **kw):
+            nested.append((kw.get("method"), {k: v for k, v in kw.items() if k in ("rtol", "atol")}))
+            return orig2(*a, **kw)
         self.mod.solve = solve
+        self.mod2.solve = solve2
         return self
 
     def __exit__(self, *exc):
         self.mod.solve = self.orig
+        self.mod2.solve = self.orig2
         return False
 
 
@@ -180,11 +191,18 @@ def run_case(desc):
     gradset = desc["gradset"]
     grad_names = names if gradset == "all" else ([names[0]] if gradset == "first" else [names[-1]])
     placement = desc["placement"]
-    bck = BCK[desc["bck"]]
+    bck = dict(BCK[desc["bck"]])
+    cot = desc.get("cot", "rand")
+    cscale = 1.0
+    if cot == "tiny":
+        cscale = 1e-10
+        if desc["bck"] != "exactsolve":
+            bck["atol"] = 1e-30           # an absolute tolerance above the cotangent's size legitimately returns zero
+            bck.setdefault("rtol", 1e-10)
     N = 1
     for s in prob.yshape:
         N *= s
-    cfg = "%s:%s:%s" % (task, placement, desc["bck"])
+    cfg = "%s:%s:%s%s" % (task, placement, desc["bck"], "" if cot == "rand" else ":cot_" + cot)
     observe_only = desc["group"] == "observe_nonholomorphic"
 
     def make_y0(kind):
@@ -235,7 +253,13 @@ def run_case(desc):
             return obs.result()
         C = torch.randn(y.shape, dtype=dt, generator=tgen)
         D = [torch.randn(t.shape, dtype=t.dtype, generator=tgen) for t in lv]
-        L = _contract(C, y)
+        if cot == "nl":
+            Wq = torch.rand(y.shape, dtype=torch.float64, generator=tgen)
+            lossf = lambda t: _contract(C, t) + 0.5 * (Wq * (t.conj() * t).real).sum()     # noqa: E731
+        else:
+            lossf = lambda t: _contract(C * cscale, t)                                     # noqa: E731
+        obs.count("cot_%s" % cot)
+        L = lossf(y)
         second = desc["order"] >= 2
         ask = lv + ([y0] if desc["y0grad"] else [])
         with WarnLog() as wl1:
@@ -263,6 +287,11 @@ def run_case(desc):
             else:
                 obs.check(False, "grad2:no_graph:%s" % cfg,
                           "first-order gradients carry no graph although create_graph=True (second order silently lost)", family=family)
+    if cscale != 1.0:
+        # gradients are linear in the cotangent: compare g(1e-10 C) * 1e10 with the reference for C
+        g1 = [None if g is None else g.detach() / cscale for g in g1]
+        g2 = None if g2 is None else [None if g is None else g.detach() / cscale for g in g2]
+        g_all = [None if g is None else g.detach() / cscale for g in g_all]
     nsolve = len(spy.calls)
     obs.count("backward_solves", nsolve)
     for meth, dim in spy.calls[:1]:
@@ -274,6 +303,12 @@ def run_case(desc):
     if nsolve:
         obs.check(all(m == bck.get("method") for m, _ in spy.calls), "bck_options_ignored:%s" % cfg,
                   "backward solves were called with method=%s, bck_options asked for %s" % (sorted({str(m) for m, _ in spy.calls}), bck.get("method")))
+        if spy.nested:
+            obs.count("nested_backward_solves", len(spy.nested))
+            want = {k: v for k, v in bck.items() if k in ("rtol", "atol")}
+            obs.check(all(m == bck.get("method") and o == want for m, o in spy.nested), "bck_options_ignored_nested:%s" % cfg,
+                      "solves started by the backward of the backward solve (second order) ran with %s, bck_options asked for %s"
+                      % (sorted({"%s %s" % (m, sorted(o.items())) for m, o in spy.nested})[:3], dict(bck)))
         obs.check(all(dim == N * (1 if not cplx else 1) for _, dim in spy.calls), "bck_system_size:%s" % cfg,
                   "backward linear system has size %s, the solution has %d unknowns" % (sorted({d_ for _, d_ in spy.calls}), N))
     # ------------------------------------------------------------------ y0 and non-tensor parameters get no gradient
@@ -282,6 +317,11 @@ def run_case(desc):
         obs.count("y0_nograd_checked")
         obs.check(gy0 is None or _norm(gy0) == 0.0, "y0_gets_gradient:%s" % cfg,
                   "the initial guess received a non-zero gradient (norm %.3e)" % (0.0 if gy0 is None else _norm(gy0)), method=method)
+    if bck_warned and desc["bck"] != "gmres" and not observe_only:
+        # within the stated class (Jacobian cond <= 4, tolerances attainable, iteration budget of the solver's default) every backward solver
+        # except gmres (which never builds the full Krylov space) converges: a warning means the requested solver did not deliver the gradient
+        obs.check(False, "backward_not_silent:%s" % cfg, "the backward linear solve warned on a well-conditioned system: %s"
+                  % ((wl1.convergence + (wl2.convergence if second and 'wl2' in dir() else []))[:1],), family=family, method=method, N=N)
     if bck_warned:
         obs.count("backward_warned_not_compared")
         obs.count("backward_warned_%s" % desc["bck"])
@@ -299,7 +339,7 @@ def run_case(desc):
     th = pres.materialize(ref_leaves)
     yr = newton_reference(prob, th, y)
     moved = _norm(yr - y.detach())
-    Lr = _contract(C, yr)
+    Lr = (lossf(yr) / cscale) if cot != "nl" else lossf(yr)
     r1 = list(torch.autograd.grad(Lr, rl, create_graph=second, allow_unused=True))
     r2 = None
     if second:
@@ -308,7 +348,7 @@ def run_case(desc):
             r2 = list(torch.autograd.grad(sum(termsr), rl, allow_unused=True))
     # tolerance
     if desc["bck"] == "default":
-        tolb = 1e-5 if N >= 6 else 1e-12
+        tolb = (1e-9 if cot == "tiny" else 1e-5) if N >= 6 else 1e-12
     elif desc["bck"] == "exactsolve":
         tolb = 1e-12
     else:
